@@ -27,7 +27,8 @@ func init() {
 			"R3c (shared with C03.R12) a digest computed for comparison with an expected digest is built with that digest's own algorithm. " +
 			"R7 without a Docker-Content-Digest header the descriptor carries the digest that was asked for, unconditionally (every phi edge / helper return chosen where the header is empty is the known-digest parameter); R8 the fields of a stored ocimem blob are assigned only while the blob value is being built (the *blob is shared by MountBlob and by readers). " +
 			"R1c where the descriptor is the caller's, the bytes handed to CheckDescriptor are not re-derived through append([]byte(nil), …) (nil for empty content means \"nothing to verify\"); R9 (shared with C02.R7) GetBlobRange compares its upper bound with 0 strictly. " +
-			"R10 (shared with C08.R3) a committed upload buffer takes no more bytes: every append to Buffer.buf is dominated by !committed under the buffer lock, so what was verified at Commit is what stays stored.",
+			"R10 (shared with C08.R3) a committed upload buffer takes no more bytes: every append to Buffer.buf is dominated by !committed under the buffer lock, so what was verified at Commit is what stays stored. " +
+			"R11 (shared with C03.R17) the running hash of the client's verifying reader is created by the algorithm of the descriptor's own digest.",
 		NotDecided: "byte equality of round trips, the range-slice arithmetic (bounds are proven under C06/C18 but not which slice), Range/Content-Range formatting (the upload Content-Range codec is not its own inverse for a one-byte body: RangeString(0,1) = \"0-0\" parses back as length 0 — a value-level defect outside this technique, noted in DESIGN.md) and the behaviour of a corrupting server beyond R3.",
 		Technique:  "static analysis: SSA dominance of verification calls over stores, disjunctive path facts for EOF returns, provenance/aliasing of stored byte slices",
 	})
@@ -49,6 +50,7 @@ func runC01(c *core.Ctx) {
 	pushedBytesReachTheCheckNonNil(c, "C01.R1")
 	negativeMeansToTheEnd(c, "C01.R9", "ocimem", "ociclient")
 	// a committed upload buffer takes no more bytes: what was verified is what stays stored (shared with C08.R3)
+	hashFieldFromOwnDigest(c, "C01.R11", "ociclient")
 	relabel(c, "C01.R10", func() { c08Seal(c, newLockAnalysis(c, "ocimem")) })
 }
 
@@ -535,6 +537,12 @@ func c01ServerDigestGate(c *core.Ctx) {
 		ff := facts.FlowFuncs{
 			Edge: func(b *ssa.BasicBlock, idx int, t facts.Tokens) bool {
 				for _, cond := range facts.EdgeConds(b, idx) {
+					// any spelling of "the request names a tag"
+					if v, isEmpty, okE := facts.EmptyTest(cond); okE && !isEmpty {
+						if fld, isF := rreqField(v, rreq); isF && fld == "Tag" {
+							t["tagged"] = true
+						}
+					}
 					x, op, y, ok := facts.Cmp(cond)
 					if !ok {
 						continue
